@@ -51,6 +51,8 @@ def cases(tier, seed):
         for tdt, prec in (('int16', 'float32'), ('float32', 'float64'), ('float64', 'float64'), ('float32', 'float32')):
             out.append(dict(gen='kseq_object', subject=name, tdtype=tdt, precision=prec, sub=core.subseed('C11o', seed, k), must=True))
             k += 1
+    for name, tdt in (('snr', 'uint8'), ('anova', 'int8'), ('nicv', 'uint8')):
+        out.append(dict(gen='kseq_object', subject=name, tdtype=tdt, precision='float64', big=True, sub=core.subseed('C11big', seed, name), must=True))
     for kern in ('part1', 'part2', 'tmpl1', 'tmpl2', 'mia', 'ttest'):
         for tdt, prec in (('int16', 'float32'), ('float32', 'float64')):
             out.append(dict(gen='threads', kernel=kern, tdtype=tdt, precision=prec, sub=core.subseed('C11t', seed, k), must=True))
@@ -226,7 +228,7 @@ def _kseq_object(t, case, rng):
     name, prec, tdtype = case['subject'], case['precision'], case['tdtype']
     ncls = int(rng.choice([2, 4, 9]))
     n = int(rng.choice([12, 60, 400, 2000]))
-    if np.dtype(tdtype).kind in 'iu' and prec == 'float64' and name != 'tbuild' and rng.random() < 0.4:
+    if np.dtype(tdtype).kind in 'iu' and prec == 'float64' and name != 'tbuild' and (case.get('big') or rng.random() < 0.4):
         # big batches of narrow integers: per-class sums of squares beyond 2^24 within one batch, still exact in double precision
         n, ncls = int(rng.choice([6000, 12000])), int(rng.choice([2, 3]))
         t.count('big_batch_cases')
